@@ -116,6 +116,14 @@ def straddling_histories(acceptor, base_ops):
     betweens = [('u_relrq', [udict['u_relrq']]), ('u_data', [udict['u_data']]), ('tick3', [('tick', 3)]),
                 ('u_abort', [udict['u_abort']]), ('nothing', [])]
     out = []
+    # ... and the mirror image: an OUTGOING message of several fragments with the peer's release request (Sta8: AR-7
+    # still sends the rest), a peer message, or a time advance arriving between its fragments
+    big = pd.fragments(pd.mk_message('store_rsp', 2), 3, 40) if False else pd.fragments(pd.mk_message('store_rq', 4, 90), 3, 48)
+    for name, mid in [('relrq', [('seg', pd.mk_rel_rq().encode())]), ('data', [dict(_peer)['data']]),
+                      ('tick3', [('tick', 3)]), ('abort', [dict(_peer)['abort']])]:
+        for gap in (1, 2, 4):
+            ops = list(base_ops) + [('usermsg', list(big))] + [('idle',)] * gap + list(mid) + [('idle',)] * (len(big) + 4)
+            out.append((['outgoing-%d-fragments' % len(big), 'after-%d' % gap, name], ops))
     for name, mid in betweens:
         for split_rest in (False, True):
             ops = list(base_ops) + [('seg', first), ('idle',)] + list(mid) + [('idle',), ('idle',)]
